@@ -33,15 +33,25 @@ struct Rec
     std::size_t bytes, align;
 };
 static std::map<void*, Rec> LEDGER;
-struct LedgerAlloc
+// The allocator the containers are bound to. Default: a stateful object, std_allocator refers to it by address.
+// With VERIF_SHARED_ALLOC it is a copyable handle onto shared state, declared through is_shared_allocator: std_allocator
+// stores a copy, two std_allocators are equal iff the handles name the same state.
+#ifdef VERIF_SHARED_ALLOC
+#define LEDGER_STRUCT LedgerCore
+#else
+#define LEDGER_STRUCT LedgerAlloc
+#endif
+struct LEDGER_STRUCT
 {
     using is_stateful = std::true_type;
     int         id;
     std::size_t max_node_req = 0; // largest allocate_node request seen
     long        allocs = 0, deallocs = 0;
-    explicit LedgerAlloc(int i) : id(i) {}
-    LedgerAlloc(LedgerAlloc&&) = default;
-    LedgerAlloc& operator=(LedgerAlloc&&) = default;
+    explicit LEDGER_STRUCT(int i) : id(i) {}
+    LEDGER_STRUCT(LEDGER_STRUCT&&) = default;
+    LEDGER_STRUCT& operator=(LEDGER_STRUCT&&) = default;
+    LEDGER_STRUCT&       st() noexcept { return *this; }
+    const LEDGER_STRUCT& st() const noexcept { return *this; }
     void*        get(std::size_t bytes, std::size_t align, bool arr)
     {
         void* p = nullptr;
@@ -95,6 +105,61 @@ struct LedgerAlloc
         return std::size_t(-1) / 4;
     }
 };
+
+#ifdef VERIF_SHARED_ALLOC
+struct LedgerAlloc
+{
+    using is_stateful = std::true_type;
+    LedgerCore* core; // shared state, kept alive by the harness until it exits (the handle stays pointer-sized)
+    explicit LedgerAlloc(int i) : core(new LedgerCore(i)) {}
+    LedgerCore& st() const noexcept
+    {
+        return *core;
+    }
+    void* allocate_node(std::size_t size, std::size_t align)
+    {
+        return core->allocate_node(size, align);
+    }
+    void* allocate_array(std::size_t count, std::size_t size, std::size_t align)
+    {
+        return core->allocate_array(count, size, align);
+    }
+    void deallocate_node(void* p, std::size_t size, std::size_t align) noexcept
+    {
+        core->deallocate_node(p, size, align);
+    }
+    void deallocate_array(void* p, std::size_t count, std::size_t size, std::size_t align) noexcept
+    {
+        core->deallocate_array(p, count, size, align);
+    }
+    std::size_t max_node_size() const noexcept
+    {
+        return core->max_node_size();
+    }
+    std::size_t max_array_size() const noexcept
+    {
+        return core->max_array_size();
+    }
+    friend bool operator==(const LedgerAlloc& a, const LedgerAlloc& b) noexcept
+    {
+        return a.core == b.core;
+    }
+    friend bool operator!=(const LedgerAlloc& a, const LedgerAlloc& b) noexcept
+    {
+        return a.core != b.core;
+    }
+};
+namespace foonathan
+{
+    namespace memory
+    {
+        template <>
+        struct is_shared_allocator<LedgerAlloc> : std::true_type
+        {
+        };
+    } // namespace memory
+} // namespace foonathan
+#endif
 
 #ifdef VERIF_PROP_VARIANT
 // propagation policy chosen by the user through a specialisation (the only way to express one): swap always travels (so
@@ -169,12 +234,12 @@ static void ns_line(const char* name, std::size_t constant, V make)
     }
     ++n_ns;
     using T = typename C::value_type;
-    std::printf("ns %s %zu %zu |  | req=%zu const=%zu |  | -\n", name, sizeof(T), alignof(T), a.max_node_req, constant);
-    if (a.max_node_req > constant)
+    std::printf("ns %s %zu %zu |  | req=%zu const=%zu |  | -\n", name, sizeof(T), alignof(T), a.st().max_node_req, constant);
+    if (a.st().max_node_req > constant)
         fail(fmt("%s of a %zu-byte element (alignment %zu) requests nodes of %zu bytes, %s_node_size is %zu", name, sizeof(T), alignof(T),
-                 a.max_node_req, name, constant));
-    if (a.allocs != a.deallocs)
-        fail(fmt("%s: %ld allocations, %ld releases", name, a.allocs, a.deallocs));
+                 a.st().max_node_req, name, constant));
+    if (a.st().allocs != a.st().deallocs)
+        fail(fmt("%s: %ld allocations, %ld releases", name, a.st().allocs, a.st().deallocs));
 }
 
 template <std::size_t S, std::size_t A>
@@ -201,10 +266,10 @@ static void ns_type()
         }
         ++n_ns;
         std::size_t constant = allocate_shared_node_size<T, LedgerAlloc>::value;
-        std::printf("ns shared_ptr_stateful %zu %zu |  | req=%zu const=%zu |  | -\n", sizeof(T), alignof(T), a.max_node_req, constant);
-        if (a.max_node_req > constant)
+        std::printf("ns shared_ptr_stateful %zu %zu |  | req=%zu const=%zu |  | -\n", sizeof(T), alignof(T), a.st().max_node_req, constant);
+        if (a.st().max_node_req > constant)
             fail(fmt("allocate_shared of a %zu-byte element (alignment %zu) requests %zu bytes, allocate_shared_node_size is %zu", sizeof(T), alignof(T),
-                     a.max_node_req, constant));
+                     a.st().max_node_req, constant));
     }
 }
 template <std::size_t S>
@@ -231,8 +296,8 @@ static LedgerAlloc* ALLOCS[2];
 template <class C>
 static char binding(const C& c)
 {
-    auto* a = &c.get_allocator().get_allocator();
-    return a == ALLOCS[0] ? 'A' : a == ALLOCS[1] ? 'B' : '?';
+    auto* a = &c.get_allocator().get_allocator().st();
+    return a == &ALLOCS[0]->st() ? 'A' : a == &ALLOCS[1]->st() ? 'B' : '?';
 }
 
 // generic driver over a sequence-like interface provided by the adapter K
@@ -359,8 +424,8 @@ static void run_kind(const char* kind, Rng& g, long nops)
         }
         slot.clear();
     }
-    if (A.allocs != A.deallocs || B.allocs != B.deallocs)
-        fail(fmt("%s: allocator A %ld/%ld, B %ld/%ld allocations/releases at the end", kind, A.allocs, A.deallocs, B.allocs, B.deallocs));
+    if (A.st().allocs != A.st().deallocs || B.st().allocs != B.st().deallocs)
+        fail(fmt("%s: allocator A %ld/%ld, B %ld/%ld allocations/releases at the end", kind, A.st().allocs, A.st().deallocs, B.st().allocs, B.st().deallocs));
 }
 
 // adapters
